@@ -59,7 +59,6 @@ from beartype._util.hint.pep.proposal.pep484.pep484union import (
     make_hint_pep484_union)
 from beartype._util.hint.utilhintget import get_hint_repr
 from beartype._util.hint.utilhinttest import is_hint_cacheworthy
-from typing import Union
 
 # ....................{ COERCERS ~ root                    }....................
 #FIXME: Document mypy-specific coercion in the docstring as well, please.
@@ -202,7 +201,15 @@ def coerce_func_hint_root(
         # thus taken the surprisingly sensible course of silently ignoring this
         # edge case by effectively performing the same type expansion as
         # performed here. *applause*
-        return Union[hint, NotImplementedType]  # type: ignore[return-value]  # pyright: ignore
+        #
+        # Note that this hint is coerced (e.g., from a PEP-noncompliant tuple
+        # union, which "typing.Union" rejects as a child hint) *BEFORE* being
+        # expanded and that this expansion is delegated to a factory wrapping
+        # the low-level "TypeError" exception that "typing.Union" raises on
+        # receiving an unhashable or otherwise invalid child hint (e.g., "[]")
+        # in a high-level human-readable exception.
+        hint = coerce_hint_root(hint=hint, exception_prefix=exception_prefix)
+        return make_hint_pep484_union((hint, NotImplementedType))
 
     # ..................{ COERCE                             }..................
     # Defer to the function-agnostic root hint coercer as a generic fallback.
